@@ -49,8 +49,22 @@ per backend (counted): empty name, NUL; Oracle: a name containing ``"``;
 MySQL/MariaDB: trailing space, non-BMP characters; names colliding with
 SQLite's internal namespace (``sqlite_%``) and the schema names ``main`` / ``temp``.
 
-Mutations caught (each in a private copy, VF_REPO=/tmp/wt-strings/..):
-  filled in below after the runs.
+Findings on the unchanged tree (reported; each has one stable signature):
+  * SQLite dialect's reserved words lack ``returning`` and ``nothing`` (executed:
+    CREATE TABLE fails) -- proposed_fixes/c06_sqlite_reserved_words_returning_nothing.diff
+  * SQLite reflection of UNIQUE / CHECK / FOREIGN KEY constraint *names* does not
+    un-escape ``""`` and does not accept ``$`` in a bare name (names ``"`` and ``a$``)
+  * vendor-documented reserved words missing from the PostgreSQL (5), SQL Server
+    (4) and Oracle (23) reserved sets (documentation-based, cannot be executed here)
+
+Mutations caught (each in a private copy, VF_REPO=/tmp/wt-strings/<m>):
+  * postgresql RESERVED_WORDS: ``"user"`` removed -> ``reserved-word postgresql: 'user' is rendered bare``
+  * IdentifierPreparer._escape_identifier: quote doubling dropped -> exec + lex fail on every name with ``"``
+  * LEGAL_CHARACTERS widened by a space -> ``a a`` emitted bare: exec fails, lex ``not-one-identifier-token``
+  * MSIdentifierPreparer._escape_identifier: ``]]`` doubling dropped -> ``lex mssql+pyodbc: name ']'``
+  * unformat_identifiers: ``_unescape_identifier`` call dropped -> ``unformat ..: components ['"']: unformat-differs``
+Not applicable to identifiers (belongs to C05, caught there): pymssql ``_double_percents = False`` removed
+(MSSQL's own ``_escape_identifier`` never doubles ``%``).
 """
 import itertools
 import sqlite3
